@@ -21,6 +21,7 @@ struct Val {
     int fam = 0;            // 4, 6, or 0 for the family-wide keywords
     long lo = 0, hi = -1;   // inclusive offsets
     bool all4 = false, all6 = false;
+    bool rangeSyntax = false;   // written as addr1-addr2[/mask]
     bool covers(int pf, long off) const {
         if (pf == 4 && all4) return true;
         if (pf == 6 && all6) return true;
@@ -35,11 +36,22 @@ struct Probe {
     Ip::Address addr;
 };
 
+// Offsets >= Low and < Low + 256 denote the very first addresses of the family: 0.0.0.x resp. ::x.
+const long Low4 = -(10L << 24);
+const long Low6 = -1000000;
+const long Loop4 = (127L - 10) << 24;   // 127.0.0.0
+const long Bcast4 = ((255L - 10) << 24) + 0xffffff;   // 255.255.255.255
+
 std::string addrText(int fam, long off)
 {
     char b[64];
-    if (fam == 4) snprintf(b, sizeof b, "10.0.0.%ld", off);
-    else snprintf(b, sizeof b, "fc00::%lx", off);
+    if (fam == 4) {
+        const unsigned long a = (unsigned long)(off - Low4);
+        snprintf(b, sizeof b, "%lu.%lu.%lu.%lu", a >> 24 & 255, a >> 16 & 255, a >> 8 & 255, a & 255);
+    } else if (off >= Low6 && off < Low6 + 256) {
+        if (off == Low6) snprintf(b, sizeof b, "::");
+        else snprintf(b, sizeof b, "::%lx", off - Low6);
+    } else snprintf(b, sizeof b, "fc00::%lx", off);
     return b;
 }
 
@@ -58,13 +70,13 @@ Val plain(int fam, long a)
 
 Val range(int fam, long a, long b)
 {
-    Val v; v.fam = fam; v.lo = a; v.hi = b; v.text = addrText(fam, a) + "-" + addrText(fam, b); return v;
+    Val v; v.fam = fam; v.lo = a; v.hi = b; v.rangeSyntax = true; v.text = addrText(fam, a) + "-" + addrText(fam, b); return v;
 }
 
 // addr1-addr2/mask with both ends free of host bits: every address whose masked value lies in [a, b]
 Val maskedRange(int fam, long a, long b, int hostBits)
 {
-    Val v; v.fam = fam; v.lo = a; v.hi = b + (1L << hostBits) - 1;
+    Val v; v.fam = fam; v.lo = a; v.hi = b + (1L << hostBits) - 1; v.rangeSyntax = true;
     v.text = addrText(fam, a) + "-" + addrText(fam, b) + "/" + std::to_string((fam == 4 ? 32 : 128) - hostBits);
     return v;
 }
@@ -122,6 +134,31 @@ std::vector<Val> smallPool()
     return pool;
 }
 
+// the first and last addresses of each family, as used by Squid's own default ACLs
+// (to_localhost dst 127.0.0.0/8 0.0.0.0/32 ::1/128 ::/128), mixed with ordinary values
+std::vector<Val> specialPool()
+{
+    std::vector<Val> pool;
+    pool.push_back(cidr(4, Low4, 0));               // 0.0.0.0/32
+    pool.push_back(plain(4, Low4));                 // 0.0.0.0
+    pool.push_back(range(4, Low4, Low4 + 5));       // 0.0.0.0-0.0.0.5
+    pool.push_back(range(4, Low4 + 1, Low4 + 5));   // 0.0.0.1-0.0.0.5
+    pool.push_back(cidr(4, Loop4, 24));             // 127.0.0.0/8
+    pool.push_back(plain(4, Bcast4));               // 255.255.255.255
+    pool.push_back(cidr(4, Bcast4, 0));             // 255.255.255.255/32
+    pool.push_back(cidr(6, Low6, 0));               // ::/128
+    pool.push_back(plain(6, Low6));                 // ::
+    pool.push_back(cidr(6, Low6 + 1, 0));           // ::1/128
+    pool.push_back(plain(6, Low6 + 1));             // ::1
+    pool.push_back(range(6, Low6 + 1, Low6 + 5));   // ::1-::5
+    pool.push_back(range(6, Low6, Low6 + 5));       // ::-::5
+    pool.push_back(cidr(4, 0, 4));                  // 10.0.0.0/28
+    pool.push_back(cidr(6, 0, 4));                  // fc00::/124
+    pool.push_back(range(6, 1, 5));                 // fc00::1-fc00::5
+    pool.push_back(range(4, 1, 5));                 // 10.0.0.1-10.0.0.5
+    return pool;
+}
+
 std::vector<Probe> probes;
 
 void addProbe(int fam, long off, const std::string &text)
@@ -143,17 +180,51 @@ void makeProbes()
     }
     addProbe(4, -1, "9.255.255.255");
     addProbe(4, 261, "10.0.1.5");
-    addProbe(4, -(10L << 24), "0.0.0.5");
-    addProbe(4, 1L << 31, "255.255.255.255");
+    for (long o : {0L, 1L, 3L, 5L, 6L}) addProbe(4, Low4 + o, addrText(4, Low4 + o));
+    addProbe(4, Loop4 - 1, "126.255.255.255");
+    addProbe(4, Loop4 + 1, "127.0.0.1");
+    addProbe(4, Loop4 + (1L << 24), "128.0.0.0");
+    addProbe(4, Bcast4 - 1, "255.255.255.254");
+    addProbe(4, Bcast4, "255.255.255.255");
+    for (long o : {0L, 1L, 3L, 5L, 6L}) addProbe(6, Low6 + o, addrText(6, Low6 + o));
     addProbe(6, -1, "fbff:ffff:ffff:ffff:ffff:ffff:ffff:ffff");
     addProbe(6, 65541, "fc00::1:5");
-    addProbe(6, -2, "::5");
     addProbe(6, 1L << 40, "ffff:ffff:ffff:ffff:ffff:ffff:ffff:ffff");
 }
 
 uint64_t nMatchCalls = 0, nHits = 0, nMisses = 0, nMerged = 0, nParsed = 0;
 
 struct NodeCounter { size_t n = 0; void operator()(acl_ip_data *const &) { ++n; } };
+
+uint64_t nKnownClassMismatches = 0;
+std::set<std::string> reported;     // known classes are reported once per process (with the first list showing them)
+
+// Mismatches with an analysed root cause get a stable key naming the failing input class (so that they can be
+// listed as known findings while every other mismatch keeps its own identity); "" = not classified.
+std::string knownClass(const std::vector<Val> &values, const Probe &p, bool got)
+{
+    bool v6Range = false;
+    for (const auto &v : values) v6Range = v6Range || (v.fam == 6 && v.rangeSyntax);
+    // Ip::Address::operator>=() treats 255.255.255.255 (::ffff:255.255.255.255) as "no address", greater than
+    // everything, so the range test (A >= addr1 && A <= addr2) of aclIpAddrNetworkCompare() holds for IPv6 ranges
+    if (got && p.fam == 4 && p.off == Bcast4 && v6Range) return "ipv6-range-matches-255.255.255.255";
+    // Mirror image: operator<=() treats 0.0.0.0 (::ffff:0.0.0.0) as "any address", smaller than everything, so
+    // an IPv6 range that starts below ::ffff:0:0 (e.g. ::1-::5) matches the IPv4 address 0.0.0.0
+    bool lowV6Range = false, lowV6 = false, zeroV4 = false;
+    for (const auto &v : values) {
+        lowV6Range = lowV6Range || (v.fam == 6 && v.rangeSyntax && v.lo < Low6 + 256);
+        lowV6 = lowV6 || (v.fam == 6 && v.lo < Low6 + 256);
+        zeroV4 = zeroV4 || (v.fam == 4 && v.lo == Low4);
+    }
+    if (got && p.fam == 4 && p.off == Low4 && lowV6Range) return "ipv6-range-below-::ffff:0:0-matches-0.0.0.0";
+    // Acl::SplayInserter<acl_ip_data*>::Compare() orders values with Ip::Address::operator<()/>(), which put
+    // 0.0.0.0 below every address, while lookups (aclIpAddrNetworkCompare) order numerically, where 0.0.0.0 is
+    // ::ffff:0.0.0.0 and lies above ::1: a list holding both a value that starts at 0.0.0.0 and an IPv6 value below
+    // ::ffff:0:0 can be built in an order the lookup cannot follow, and configured addresses are not found
+    const bool lowProbe = (p.fam == 4 && p.off < Low4 + 256) || (p.fam == 6 && p.off < Low6 + 256);
+    if (!got && lowProbe && zeroV4 && lowV6) return "miss-in-list-mixing-0.0.0.0-with-ipv6-below-::ffff:0:0";
+    return "";
+}
 
 void checkList(const std::vector<Val> &values)
 {
@@ -189,8 +260,12 @@ void checkList(const std::vector<Val> &values)
             ++nMatchCalls;
             const bool got = acl->ACLIP::match(p.addr) != 0;
             if (got != want) {
-                V::fail("address " + p.text + (got ? " matched" : " did not match") + " but the union of the listed values " + (want ? "contains it" : "does not contain it") + (pass ? " (reverse probing pass)" : ""));
-                return;
+                const std::string what = "address " + p.text + (got ? " matched" : " did not match") + " but the union of the listed values " + (want ? "contains it" : "does not contain it") + (pass ? " (reverse probing pass)" : "");
+                const std::string key = knownClass(values, p, got);
+                if (key.empty()) { V::fail(what); return; }
+                if (!reported.count(key)) { reported.insert(key); V::failKey(key, what); }
+                ++nKnownClassMismatches;
+                continue;       // keep checking the other probes of this list
             }
             (got ? anyHit : anyMiss) = true;
             ++(got ? nHits : nMisses);
@@ -232,27 +307,51 @@ void enumerate(const char *tag, const std::vector<Val> &pool, int minLen, int ma
 void body(V::Ctx &ctx)
 {
     Mem::Init();
+    // squid.conf default "configuration_includes_quoted_values off" (default_all() sets both before parsing starts)
+    ConfigParser::RecognizeQuotedValues = false;
+    ConfigParser::StrictMode = false;
     Ip::EnableIpv6 = IPV6_SPECIAL_SPLITSTACK;   // otherwise FactoryParse() ignores IPv6 values (normally probed at startup)
     makeProbes();
     const auto full = fullPool();
     const auto small = smallPool();
+    const auto special = specialPool();
     if (ctx.shard == 0) {
         V::setCount("value_pool_full", full.size());
         V::setCount("value_pool_small", small.size());
+        V::setCount("value_pool_special", special.size());
         V::setCount("probe_addresses", probes.size());
+    }
+    {   // Squid's built-in ACLs (src/cf.data.pre: DEFAULT: localhost / to_localhost), in all orders
+        std::vector<Val> toLocalhost = {cidr(4, Loop4, 24), cidr(4, Low4, 0), cidr(6, Low6 + 1, 0), cidr(6, Low6, 0)};
+        std::vector<int> perm = {0, 1, 2, 3};
+        do {
+            std::vector<Val> values;
+            std::string desc = "D[";
+            for (int i : perm) { values.push_back(toLocalhost[i]); if (values.size() > 1) desc += ' '; desc += toLocalhost[i].text; }
+            desc += "]";
+            if (V::begin_case(desc)) { checkList(values); V::end_case(); }
+        } while (std::next_permutation(perm.begin(), perm.end()));
+        std::vector<Val> localhost = {cidr(4, Loop4 + 1, 0), plain(6, Low6 + 1)};
+        for (int rev = 0; rev < 2; ++rev) {
+            std::vector<Val> values = {localhost[rev], localhost[1 - rev]};
+            if (V::begin_case("D[" + values[0].text + " " + values[1].text + "]")) { checkList(values); V::end_case(); }
+        }
     }
     if (ctx.quick()) {
         enumerate("F", full, 0, 2);
         enumerate("S", small, 3, 3);
+        enumerate("Z", special, 1, 3);
     } else {
         enumerate("F", full, 0, 3);
         enumerate("S", small, 4, 4);
+        enumerate("Z", special, 1, 4);
     }
     V::count("match_calls", nMatchCalls);
     V::count("hits", nHits);
     V::count("misses", nMisses);
     V::count("lists_merged_or_deduplicated", nMerged);
     V::count("lists_parsed", nParsed);
+    V::count("mismatches_of_known_classes", nKnownClassMismatches);
 }
 
 } // namespace
